@@ -1,5 +1,6 @@
 import SafeC.Driver
 import SafeC.Models.Copy
+import SafeC.Models.Timing
 /-!
 # name → model dispatch for the driver
 -/
@@ -55,6 +56,12 @@ def dispatch (fn : String) (c : Ctx) : Option (Prog Out) :=
   | "stpncpy_s" => do
     let d ← c.p 0; let m ← c.n 1; let s ← c.p 2; let l ← c.n 3; let b ← c.b 5; let sb ← c.b 6
     pure (stpOut c.regs 4 (stpncpy_s c.cfg d m s l b sb))
+  | "timingsafe_bcmp" => do
+    let a ← c.p 0; let b ← c.p 1; let n ← c.n 2; let db ← c.b 3; let sb ← c.b 4
+    pure (do let r ← timingsafe_bcmp a b n db sb; pure { ret := toString r })
+  | "timingsafe_memcmp" => do
+    let a ← c.p 0; let b ← c.p 1; let n ← c.n 2; let db ← c.b 3; let sb ← c.b 4
+    pure (do let r ← timingsafe_memcmp a b n db sb; pure { ret := toString r })
   | "strnlen_s" => do
     let s ← c.p 0; let m ← c.n 1; let b ← c.b 2
     pure (errOut (strnlen_s s m b))
